@@ -115,9 +115,9 @@ namespace awkward {
       }
       if (tofill.get() == nullptr) {
         tofill = BoolBuilder::fromempty(options_);
-        if (contents_.size() >= 128) {
+        if (contents_.size() >= (size_t)kMaxInt8) {
           throw std::invalid_argument(
-            std::string("a union built by ArrayBuilder cannot have more than 128 alternatives (tags are 8-bit)")
+            std::string("a union built by ArrayBuilder cannot have more than 127 alternatives (UnionArray supports at most kMaxInt8 contents)")
             + FILENAME(__LINE__));
         }
         contents_.push_back(tofill);
@@ -147,9 +147,9 @@ namespace awkward {
       }
       if (tofill.get() == nullptr) {
         tofill = Int64Builder::fromempty(options_);
-        if (contents_.size() >= 128) {
+        if (contents_.size() >= (size_t)kMaxInt8) {
           throw std::invalid_argument(
-            std::string("a union built by ArrayBuilder cannot have more than 128 alternatives (tags are 8-bit)")
+            std::string("a union built by ArrayBuilder cannot have more than 127 alternatives (UnionArray supports at most kMaxInt8 contents)")
             + FILENAME(__LINE__));
         }
         contents_.push_back(tofill);
@@ -194,9 +194,9 @@ namespace awkward {
         }
         else {
           tofill = Float64Builder::fromempty(options_);
-          if (contents_.size() >= 128) {
+          if (contents_.size() >= (size_t)kMaxInt8) {
           throw std::invalid_argument(
-            std::string("a union built by ArrayBuilder cannot have more than 128 alternatives (tags are 8-bit)")
+            std::string("a union built by ArrayBuilder cannot have more than 127 alternatives (UnionArray supports at most kMaxInt8 contents)")
             + FILENAME(__LINE__));
         }
         contents_.push_back(tofill);
@@ -258,9 +258,9 @@ namespace awkward {
         }
         else {
           tofill = Complex128Builder::fromempty(options_);
-          if (contents_.size() >= 128) {
+          if (contents_.size() >= (size_t)kMaxInt8) {
           throw std::invalid_argument(
-            std::string("a union built by ArrayBuilder cannot have more than 128 alternatives (tags are 8-bit)")
+            std::string("a union built by ArrayBuilder cannot have more than 127 alternatives (UnionArray supports at most kMaxInt8 contents)")
             + FILENAME(__LINE__));
         }
         contents_.push_back(tofill);
@@ -293,9 +293,9 @@ namespace awkward {
       }
       if (tofill.get() == nullptr) {
         tofill = DatetimeBuilder::fromempty(options_, unit);
-        if (contents_.size() >= 128) {
+        if (contents_.size() >= (size_t)kMaxInt8) {
           throw std::invalid_argument(
-            std::string("a union built by ArrayBuilder cannot have more than 128 alternatives (tags are 8-bit)")
+            std::string("a union built by ArrayBuilder cannot have more than 127 alternatives (UnionArray supports at most kMaxInt8 contents)")
             + FILENAME(__LINE__));
         }
         contents_.push_back(tofill);
@@ -327,9 +327,9 @@ namespace awkward {
       }
       if (tofill.get() == nullptr) {
         tofill = DatetimeBuilder::fromempty(options_, unit);
-        if (contents_.size() >= 128) {
+        if (contents_.size() >= (size_t)kMaxInt8) {
           throw std::invalid_argument(
-            std::string("a union built by ArrayBuilder cannot have more than 128 alternatives (tags are 8-bit)")
+            std::string("a union built by ArrayBuilder cannot have more than 127 alternatives (UnionArray supports at most kMaxInt8 contents)")
             + FILENAME(__LINE__));
         }
         contents_.push_back(tofill);
@@ -361,9 +361,9 @@ namespace awkward {
       }
       if (tofill.get() == nullptr) {
         tofill = StringBuilder::fromempty(options_, encoding);
-        if (contents_.size() >= 128) {
+        if (contents_.size() >= (size_t)kMaxInt8) {
           throw std::invalid_argument(
-            std::string("a union built by ArrayBuilder cannot have more than 128 alternatives (tags are 8-bit)")
+            std::string("a union built by ArrayBuilder cannot have more than 127 alternatives (UnionArray supports at most kMaxInt8 contents)")
             + FILENAME(__LINE__));
         }
         contents_.push_back(tofill);
@@ -393,9 +393,9 @@ namespace awkward {
       }
       if (tofill.get() == nullptr) {
         tofill = ListBuilder::fromempty(options_);
-        if (contents_.size() >= 128) {
+        if (contents_.size() >= (size_t)kMaxInt8) {
           throw std::invalid_argument(
-            std::string("a union built by ArrayBuilder cannot have more than 128 alternatives (tags are 8-bit)")
+            std::string("a union built by ArrayBuilder cannot have more than 127 alternatives (UnionArray supports at most kMaxInt8 contents)")
             + FILENAME(__LINE__));
         }
         contents_.push_back(tofill);
@@ -444,9 +444,9 @@ namespace awkward {
       }
       if (tofill.get() == nullptr) {
         tofill = TupleBuilder::fromempty(options_);
-        if (contents_.size() >= 128) {
+        if (contents_.size() >= (size_t)kMaxInt8) {
           throw std::invalid_argument(
-            std::string("a union built by ArrayBuilder cannot have more than 128 alternatives (tags are 8-bit)")
+            std::string("a union built by ArrayBuilder cannot have more than 127 alternatives (UnionArray supports at most kMaxInt8 contents)")
             + FILENAME(__LINE__));
         }
         contents_.push_back(tofill);
@@ -510,9 +510,9 @@ namespace awkward {
       }
       if (tofill.get() == nullptr) {
         tofill = RecordBuilder::fromempty(options_);
-        if (contents_.size() >= 128) {
+        if (contents_.size() >= (size_t)kMaxInt8) {
           throw std::invalid_argument(
-            std::string("a union built by ArrayBuilder cannot have more than 128 alternatives (tags are 8-bit)")
+            std::string("a union built by ArrayBuilder cannot have more than 127 alternatives (UnionArray supports at most kMaxInt8 contents)")
             + FILENAME(__LINE__));
         }
         contents_.push_back(tofill);
@@ -610,9 +610,9 @@ namespace awkward {
       }
       if (tofill.get() == nullptr) {
         tofill = IndexedGenericBuilder::fromnulls(options_, 0, array);
-        if (contents_.size() >= 128) {
+        if (contents_.size() >= (size_t)kMaxInt8) {
           throw std::invalid_argument(
-            std::string("a union built by ArrayBuilder cannot have more than 128 alternatives (tags are 8-bit)")
+            std::string("a union built by ArrayBuilder cannot have more than 127 alternatives (UnionArray supports at most kMaxInt8 contents)")
             + FILENAME(__LINE__));
         }
         contents_.push_back(tofill);
